@@ -9,6 +9,7 @@ Group 2 (blank = 0, override = workbook value)   E1 on emitted classes.
 Group 3 (a numeric literal denotes the nearest double)   E2/Float64 through the real LiteralToken.__init__ with shims for
                      int/float/str in its module globals; the digit groups are symbolic bit-vectors."""
 import itertools
+import os
 import random
 import time
 
@@ -174,8 +175,25 @@ def region_of(attrs, kfs):
     return None
 
 
-def _group1_chunk(fam, kfs):
+def _load_snapshot():
+    import gzip
+    from vlib import VERIF
+    p = os.path.join(VERIF, 'known_shapes', 'C01.txt.gz')
+    if not os.path.exists(p):
+        return None
+    with gzip.open(p, 'rt') as f:
+        return set(l.rstrip('\n') for l in f if l.strip())
+
+
+SNAP = 'unloaded'
+
+
+def _group1_chunk(fam, kfs, use_snapshot=True):
     import ast as _ast
+    global SNAP
+    if SNAP == 'unloaded':
+        SNAP = _load_snapshot()
+    snap = SNAP if use_snapshot else None
     cnt = dict(euf_identical=0, value_equal=0, known=0, violated=0, inconclusive=0)
     hits, conds, queries = {}, [], 0
     for formula, attrs in fam:
@@ -207,6 +225,8 @@ def _group1_chunk(fam, kfs):
                 cnt['value_equal'] += 1          # different trees, equal values for all reals (e.g. a%+(b+c))
                 continue
             if verdict == 'unknown':
+                if region_of(attrs, kfs) is not None:
+                    hits.setdefault(('unreproduced', region_of(attrs, kfs)), []).append(formula)
                 conds.append((name, 'inconclusive', f'trees differ (emitted: {code}); value tier undecided'))
                 cnt['inconclusive'] += 1
                 continue
@@ -215,6 +235,8 @@ def _group1_chunk(fam, kfs):
             except ZeroDivisionError:
                 exp = ZeroDivisionError
             except Exception:
+                if region_of(attrs, kfs) is not None:
+                    hits.setdefault(('unreproduced', region_of(attrs, kfs)), []).append(formula)
                 conds.append((name, 'spurious', 'the reference evaluator cannot evaluate the model (text against number comparison)'))
                 cnt['inconclusive'] += 1
                 continue
@@ -227,17 +249,21 @@ def _group1_chunk(fam, kfs):
             except Exception as ex:
                 bad, detail = True, f'{formula}: emitted `{code}` raises {type(ex).__name__}: {ex} for {env}'
             if not bad:
-                if region_of(attrs, kfs) is not None:
+                kr = region_of(attrs, kfs)
+                if kr is not None:
                     cnt['unreproduced_in_known_region'] = cnt.get('unreproduced_in_known_region', 0) + 1     # trees differ inside a known region; this model (text concatenation is uninterpreted) did not replay
+                    hits.setdefault(('unreproduced', kr), []).append(formula)
                 else:
                     conds.append((name, 'spurious', 'value-tier model not reproduced natively: ' + str(detail)))
                     cnt['inconclusive'] += 1
                 continue
         ki = region_of(attrs, kfs)
-        if ki is not None:
+        if ki is not None and (snap is None or formula in snap):
             cnt['known'] += 1
             hits.setdefault(ki, []).append(formula)
             continue
+        if ki is not None:
+            detail = str(detail) + ' [the shape lies in the region of a recorded finding, but it is not one of the formulas recorded as failing there (known_shapes/C01.txt.gz): a new failure]'
         cnt['violated'] += 1
         conds.append((name, 'violated', detail))
     return dict(cnt=cnt, hits=hits, conds=conds, queries=queries)
